@@ -35,6 +35,7 @@ def event_ctor_sites(f, prefix):
 def run(ctx):
     c, p, res = ctx.c, ctx.p, ctx.r
     sched = p.method("BaseInterpreter", "_schedule_state_tasks")
+    shared.eligible_bucket_rules(ctx, "R9", "invoke")
     # ---- R7 the task of an invoked service is owned by the invoking state ------------------------
     shared.background_tasks_owned(ctx, "R7", only_funcs={"_invoke_service"})
     # ---- R1 one start per activation -----------------------------------------------
